@@ -30,17 +30,80 @@ def run(tier, seed):
         n_tab += a; n_q += b; n_loc += c_; n_bp += nb
         for k, d in viol:
             rep.violation('c04:%s:%s' % (k, name), d)
+    # ---- freshly compiled sources: era-chain / year-edge products (and the S3 one-deviation family in the thorough tier) compiled
+    # by the real pipeline into BOTH languages; the generated C++ tables (namespace vdb) against the in-memory Python tables
+    fr = fresh(rep, tier, seed)
+    n_tab += fr[0]; n_q += fr[1]; n_loc += fr[2]; n_bp += fr[3]
     c = rep.coverage
+    c.update(fresh_zones_compared=fr[4], fresh_years='%d..%d' % fr[5])
     c.update(python_tables=n_tab, python_second_queries=n_q, python_local_queries=n_loc, zones_compared=len(order), cxx_rows=n_bp)
     rep.assumptions += [
         'both sides see the compiled zonedbx table: the C++ table is decoded through the brokers into the tools\' data model (no source text involved)',
         'C++ side = exact change-point table from a walk over every minute of 2000..2049 with bisection to the second; Python side = ZoneSpecifier.transitions of every year under all 8 option combinations (viewing_months 13/14 x candidate finder x selector), compared row by row (offset, DST offset, abbreviation)',
         'local date-times: every minute within %d min of every transition; Python total offset of the selected transition vs (local-as-UTC - C++ result epoch); %s' % (200 if thorough else 120, 'all 8 option sets' if thorough else 'default and most different option set'),
-        'freshly compiled sources are compared with zic through both languages in C03',
+        'freshly compiled sources: the C03 era-chain products (quick: years 2004..2014; thorough: + year-edge product + S3 one-deviation family, 2000..2049) compiled once by the real pipeline into generated C++ tables and in-memory Python tables, compared the same way; both are also compared with zic in C03',
     ]
     return rep.finish(exhaustive=True, extra={'evaluations': n_q + n_loc + n_tab, 'distinct_nontrivial': n_bp,
         'samples': [{'zone': 'America/Los_Angeles', 'cxx_rows': cxx.get('America/Los_Angeles', [])[:3]}],
         'rule': 'every zonedbx zone x every year x 8 option sets (table equality) + get_timezone_info_for_seconds at every change point -1/0/+1 s and on a grid + get_timezone_info_for_datetime at every minute near every transition; distinct_nontrivial = C++ change points'})
+
+def fresh(rep, tier, seed):
+    import calendar, tempfile, shutil
+    from pyexp import equiv, mutants, pipeline
+    from oracle import zicrun
+    thorough = tier == 'thorough'
+    rules, chains = mutants.era_chains()
+    blocks = [rules] + [c[3] for c in chains]
+    names = [c[4] for c in chains]
+    # violation keys name the input class (family, STDOFF sequence, RULES kinds / UNTIL form), not the running zone number
+    label = {c[4]: (c[0], '_'.join(c[2].split(' until ')[0].split(' ')[:-1]), c[1]) for c in chains}
+    src = {c[4]: c[3] for c in chains}
+    if thorough:
+        edge = mutants.year_boundary()
+        blocks += [c[3] for c in edge]; names += [c[4] for c in edge]
+        label.update({c[4]: (c[0], c[1]) for c in edge}); src.update({c[4]: c[3] for c in edge})
+        from checks.c03 import zic_filter
+        fam = mutants.family(two=False)
+        kept, _ = zic_filter([(m[0], m[3]) for m in fam], 'c04-S3')
+        ks = {k for k, _ in kept}
+        blocks += [m[3] for m in fam if m[0] in ks]; names += [m[4] for m in fam if m[0] in ks]
+        label.update({m[4]: ('S3', m[1], m[2].split('=')[0].split('.')[-1]) for m in fam}); src.update({m[4]: m[3] for m in fam})
+    text = '\n'.join(blocks) + '\n'
+    y0, y1 = (2000, 2050) if thorough else (2004, 2015)
+    comp = pipeline.compile_text(text, 'extended', start_year=2000, until_year=2050)
+    emitted = sorted(comp.zone_infos)
+    tabs = zicrun.compile_text(text, emitted, lo=calendar.timegm((1999, 1, 1, 0, 0, 0)), hi=calendar.timegm((2051, 1, 1, 0, 0, 0)), crosscheck=False, tag='c04-fresh')
+    d = tempfile.mkdtemp(prefix='verif-c04gen-')
+    prefix = os.path.join(runner.BUILD, 'c04f-%d' % os.getpid())
+    opath = prefix + '.oracle'
+    nsh = runner.NCPU
+    try:
+        pipeline.generate(comp, 'arduino', d, db_namespace='vdb')
+        zicrun.write_tables(tabs, emitted, opath)
+        srcs = [os.path.join(d, f) for f in ('zone_infos.cpp', 'zone_policies.cpp', 'zone_registry.cpp')]
+        exe = build_driver('c04_dump.cpp', 'fast', extra_srcs=srcs, extra_flags=['-DVERIF_GEN_NS=vdb', '-DVERIF_GEN_EXT=1'], extra_inc=[d], strict=True)
+        res = run_shards(exe, ['--oracle=' + opath, '--out=' + prefix, '--win=%d' % (200 if thorough else 120), '--y0=%d' % y0, '--y1=%d' % y1], nshards=nsh, tier=tier, seed=seed, timeout=7200)
+        rep.absorb(res)
+        cxx, locs = equiv.load_cxx(prefix, nsh)
+        order = []
+        for i in range(nsh):
+            k = 0
+            for line in open('%s.%d.brk' % (prefix, i)):
+                if line[0] == 'Z':
+                    order.append((i + k * nsh, line.split()[1])); k += 1
+    finally:
+        shutil.rmtree(d, ignore_errors=True)
+        for f in glob.glob(prefix + '.*'):
+            os.remove(f)
+    order.sort()
+    if [n for _, n in order] != emitted:
+        raise runner.Broken('generated registry does not list the emitted zones: %d vs %d' % (len(order), len(emitted)))
+    n_tab = n_q = n_loc = n_bp = 0
+    for name, viol, a, b, c_, nb in equiv.compare(comp.zone_infos, cxx, locs, order, y0, y1, grid=(86400 if thorough else 30 * 86400), all_opts_local=thorough):
+        n_tab += a; n_q += b; n_loc += c_; n_bp += nb
+        for k, dd in viol:
+            rep.violation('c04:fresh:%s:%s' % (k, ':'.join(label[name])), dict(dd, source_text=src[name]))
+    return n_tab, n_q, n_loc, n_bp, len(order), (y0, y1)
 
 def replay(path):
     print(open(path).read()); return 0
